@@ -726,7 +726,9 @@ func (v *FnVC) unop(fr *frame, st *State, x *ssa.UnOp) Val {
 		if ps, ok := a.(Sc); ok {
 			v.safe(fr, "nil", x, Not(Eq(ps.T, tZero)))
 		}
-		return v.deref(st, a, et, reach)
+		res := v.deref(st, a, et, reach)
+		v.childInvariants(fr, st, x, res, reach)
+		return res
 	case token.NOT:
 		return Sc{Not(a.(Sc).T)}
 	case token.SUB:
@@ -924,4 +926,62 @@ func returnedWithError(mi *ssa.MakeInterface) ssa.Value {
 func isErrorType(t types.Type) bool {
 	n, ok := types.Unalias(t).(*types.Named)
 	return ok && n.Obj().Pkg() == nil && n.Obj().Name() == "error"
+}
+
+// childInvariants: x loads an element of `parent.<field>` (x = *(&(*(&parent.<field>))[i])) for which a child-invariant
+// is declared: the declared fact about (element, parent) is assumed here.
+func (v *FnVC) childInvariants(fr *frame, st *State, x *ssa.UnOp, res Val, reach Term) {
+	cs := v.w.Contracts
+	if len(cs.ChildInvs) == 0 || v.inTypeInv || v.top == nil {
+		return
+	}
+	ia, ok := x.X.(*ssa.IndexAddr)
+	if !ok {
+		return
+	}
+	ld, ok := ia.X.(*ssa.UnOp)
+	if !ok || ld.Op != token.MUL {
+		return
+	}
+	fa, ok := ld.X.(*ssa.FieldAddr)
+	if !ok {
+		return
+	}
+	pt, ok := under(fa.X.Type()).(*types.Pointer)
+	if !ok {
+		return
+	}
+	stt, ok := under(pt.Elem()).(*types.Struct)
+	if !ok {
+		return
+	}
+	child, ok := res.(Sc)
+	if !ok {
+		return
+	}
+	parent, ok := v.value(fr, fa.X).(Sc)
+	if !ok {
+		return
+	}
+	for _, ci := range cs.ChildInvs {
+		if ci.structKey == "" {
+			ty, err := v.w.resolveType(ci.StructText, nil)
+			if err != nil {
+				panic(unsupported("child-invariant: %v", err))
+			}
+			ci.structKey = typeKey(ty)
+		}
+		if ci.structKey != typeKey(pt.Elem()) || stt.Field(fa.Field).Name() != ci.Field {
+			continue
+		}
+		v.inTypeInv = true
+		env := &specEnv{v: v, fr: v.top, st: st, old: st, bound: map[string]specVal{
+			ci.Child:  {V: child, T: x.Type()},
+			ci.Parent: {V: parent, T: fa.X.Type()},
+		}, specPkg: v.w.pkgByShort(ci.Clause.Pkg)}
+		env.guard = reach
+		body := env.evalBool(ci.Clause.Expr)
+		v.inTypeInv = false
+		v.sc.Assert(Implies(reach, body))
+	}
 }
